@@ -110,8 +110,11 @@ func prf(seed int64, i, n int) []byte {
 }
 
 // compressible plaintext contributed by frame i of a compressed message
+// zplain is the compressible text of one fragment. Every message of a stream repeats the same 7-byte unit, so that with context
+// takeover a later message is encoded as references into an earlier one: an inflater that follows the wrong side of an
+// asymmetric agreement (no dictionary kept where the sender keeps one) cannot decode it.
 func zplain(seed int64, i, n int) []byte {
-	unit := prf(seed, i, 7)
+	unit := prf(seed, 0, 7)
 	var b []byte
 	for len(b) < n*9 {
 		b = append(b, unit...)
